@@ -210,6 +210,10 @@ func init() {
 		l3Unit("enums-in-arrays-and-objects", map[string]int{"KINDS": 48, "DEPTH": 1, "ITEMKINDS": 4288}, "C08.", "enums as array items and object members"),
 	}})
 	reg(&Property{ID: "C19", Units: l3All("C19.")})
+	properties["C19"].Units = append(properties["C19"].Units, Unit{Name: "every-generated-type", Harness: "pkg/generator:HarnessC19AllTypes", Layer: "L3",
+		Desc:   "six composite shapes (anyOf with a map-typed branch, anyOf of objects, allOf of a $ref and an object, an object with typed additionalProperties, an array of objects with a mixed and a string enum, named scalar definitions): EVERY emitted type that has UnmarshalJSON -- union structs, their branch types, map types, enum types, named scalars, the root -- is called directly on an arbitrary symbolic document (any JSON value or malformed bytes) with an arbitrary prior receiver: no panic path is feasible and the receiver is syntactically untouched on every error path",
+		Bounds: "six concrete shapes, documents with arrays <= 2 elements and one extra member per object",
+		Quick:  map[string]int{"GRID": 2, "GRIDMAG": 36, "N": 2}, Panic: "inconclusive"})
 	// the validator kernels of C04-C07 also decide "no panic" and "receiver unchanged on error"
 	// for every nil-guard / index expression they emit: C19 owns those two checks of each
 	for _, src := range []string{"C04", "C05", "C06", "C07"} {
